@@ -60,6 +60,13 @@ impl Exec for CopyExec {
         let gstart = if entry.starts_with("r_") || entry.starts_with("g_") { rhost + goff } else { gp as usize };
         let mut to_guest = true;
         let mut res = json!({"k": "ok"});
+        // the ordering requested from the atomic entries (loads: relaxed / acquire / seqcst; stores: relaxed / release / seqcst)
+        let ord = match line["a"]["ord"].as_str().unwrap_or("seqcst") {
+            "relaxed" => Ordering::Relaxed,
+            "acquire" => Ordering::Acquire,
+            "release" => Ordering::Release,
+            _ => Ordering::SeqCst,
+        };
         access::start();
         // machine-level runs (valgrind lackey): a store to MARK opens and closes the window of this library call
         let mach = std::env::var("VMH_MACH").is_ok();
@@ -120,6 +127,19 @@ impl Exec for CopyExec {
                     let mut v: Vec<u8> = Vec::with_capacity(64);
                     drop(vs.write_volatile_to(0, &mut v, n))
                 }
+                "s_write_to_vec_used" => {
+                    // a vector that has been written to before and has less spare capacity than the transfer
+                    to_guest = false;
+                    let mut v: Vec<u8> = Vec::with_capacity(12);
+                    v.extend_from_slice(&[0u8; 8]);
+                    drop(vs.write_volatile_to(0, &mut v, n))
+                }
+                "s_write_all_to_vec_used" => {
+                    to_guest = false;
+                    let mut v: Vec<u8> = Vec::with_capacity(12);
+                    v.extend_from_slice(&[0u8; 8]);
+                    drop(vs.write_all_volatile_to(0, &mut v, n))
+                }
                 "adapter_read_volatile" => {
                     let mut src: &[u8] = lbuf;
                     let mut sub = vs.subslice(0, n).unwrap();
@@ -163,7 +183,7 @@ impl Exec for CopyExec {
                 }
                 // atomic store / load: misaligned addresses must be refused (no access through the helper at all)
                 "s_store" => with_atomic_ty!(n, T, {
-                    res = match vs.store::<T>(from_bytes::<T>(lbuf), 0, Ordering::SeqCst) {
+                    res = match vs.store::<T>(from_bytes::<T>(lbuf), 0, ord) {
                         Ok(()) => json!({"k": "ok"}),
                         Err(_) => json!({"k": "err"}),
                     }
@@ -171,14 +191,14 @@ impl Exec for CopyExec {
                 "s_load" => {
                     to_guest = false;
                     with_atomic_ty!(n, T, {
-                    res = match vs.load::<T>(0, Ordering::SeqCst) {
+                    res = match vs.load::<T>(0, ord) {
                         Ok(_) => json!({"k": "ok"}),
                         Err(_) => json!({"k": "err"}),
                     }
                     })
                 }
                 "r_store" => with_atomic_ty!(n, T, {
-                    res = match region.store::<T>(from_bytes::<T>(lbuf), raddr, Ordering::SeqCst) {
+                    res = match region.store::<T>(from_bytes::<T>(lbuf), raddr, ord) {
                         Ok(()) => json!({"k": "ok"}),
                         Err(_) => json!({"k": "err"}),
                     }
@@ -186,14 +206,14 @@ impl Exec for CopyExec {
                 "r_load" => {
                     to_guest = false;
                     with_atomic_ty!(n, T, {
-                    res = match region.load::<T>(raddr, Ordering::SeqCst) {
+                    res = match region.load::<T>(raddr, ord) {
                         Ok(_) => json!({"k": "ok"}),
                         Err(_) => json!({"k": "err"}),
                     }
                     })
                 }
                 "g_store" => with_atomic_ty!(n, T, {
-                    res = match self.gm.store::<T>(from_bytes::<T>(lbuf), gaddr, Ordering::SeqCst) {
+                    res = match self.gm.store::<T>(from_bytes::<T>(lbuf), gaddr, ord) {
                         Ok(()) => json!({"k": "ok"}),
                         Err(_) => json!({"k": "err"}),
                     }
@@ -201,7 +221,7 @@ impl Exec for CopyExec {
                 "g_load" => {
                     to_guest = false;
                     with_atomic_ty!(n, T, {
-                    res = match self.gm.load::<T>(gaddr, Ordering::SeqCst) {
+                    res = match self.gm.load::<T>(gaddr, ord) {
                         Ok(_) => json!({"k": "ok"}),
                         Err(_) => json!({"k": "err"}),
                     }
@@ -233,7 +253,7 @@ impl Exec for CopyExec {
             }
             None => (gstart % 8, lp as usize % 8),
         };
-        let mut out = json!({"op": "copy", "a": {"entry": entry, "n": n, "gmod": gmod, "lmod": lmod}, "r": {"res": res, "acc": list, "gres": gres, "lres": lres,
+        let mut out = json!({"op": "copy", "a": line["a"], "r": {"res": res, "acc": list, "gres": gres, "lres": lres,
                "to_guest": to_guest}});
         if mach {
             out["r"]["mark"] = json!(std::ptr::addr_of!(MARK) as usize);
